@@ -3,6 +3,7 @@ import AkVerif.Lemmas.XlsSort
 import AkVerif.Lemmas.XlsCoord
 import AkVerif.Lemmas.XlsWf
 import AkVerif.Lemmas.XlsConv
+import AkVerif.Lemmas.XlsReader
 /-!
 # C18 — objects read from a sheet match their source cells
 
@@ -28,9 +29,10 @@ open Xls Ak
 column; a plain attribute is bound to the last column carrying its title, or — only if it has a
 default — to nothing when no column carries it; a ranged attribute is bound to the range columns
 (`range_columns`), each through the last column carrying that title, and may be empty only if
-it is optional. -/
-theorem bind_sound {V : Type} (titles : List Key) (rules : List (Rule V)) (slots : List Slot)
-    (h : bindTitles titles rules = .ok slots) :
+it is optional. `known` are the titles named by the rules of all rule sets of the reader
+(`Cfg.known`; for `iter_table` / `read_table`: of the one rule set). -/
+theorem bind_sound {V : Type} (titles known : List Key) (rules : List (Rule V)) (slots : List Slot)
+    (h : bindTitles titles known rules = .ok slots) :
     slots.length = rules.length ∧
     ∀ (i : Nat) (rule : Rule V) (sl : Slot), rules[i]? = some rule → slots[i]? = some sl →
       match rule with
@@ -39,12 +41,12 @@ theorem bind_sound {V : Type} (titles : List Key) (rules : List (Rule V)) (slots
         (∃ j, sl = .at j ∧ titles[j]? = some t ∧ ∀ j', j < j' → titles[j']? ≠ some t) ∨
         (sl = .none ∧ t ∉ titles ∧ d.isSome = true)
       | .range _ _ opt =>
-        ∃ ids, sl = .range (rangeNames (knownTitles rules) titles) ids ∧
-          ids.length = (rangeNames (knownTitles rules) titles).length ∧
-          (∀ (m : Nat) (n : Key), (rangeNames (knownTitles rules) titles)[m]? = some n →
+        ∃ ids, sl = .range (rangeNames known titles) ids ∧
+          ids.length = (rangeNames known titles).length ∧
+          (∀ (m : Nat) (n : Key), (rangeNames known titles)[m]? = some n →
             ∃ j, ids[m]? = some j ∧ titles[j]? = some n ∧ ∀ j', j < j' → titles[j']? ≠ some n) ∧
-          (rangeNames (knownTitles rules) titles = [] → opt = true) := by
-  obtain ⟨hlen, hall⟩ := bindTitles_spec titles rules slots h
+          (rangeNames known titles = [] → opt = true) := by
+  obtain ⟨hlen, hall⟩ := bindTitles_spec titles known rules slots h
   refine ⟨hlen, ?_⟩
   intro i rule sl hr hs
   have hb := hall i rule sl hr hs
@@ -86,14 +88,13 @@ theorem bind_sound {V : Type} (titles : List Key) (rules : List (Rule V)) (slots
 
 /-- Binding fails only with `ValueError`, and only because a plain attribute without default has
 no column or a ranged attribute that is not optional has no range column. -/
-theorem bind_error {V : Type} (titles : List Key) (rules : List (Rule V)) (e : Err)
-    (h : bindTitles titles rules = .error e) :
+theorem bind_error {V : Type} (titles known : List Key) (rules : List (Rule V)) (e : Err)
+    (h : bindTitles titles known rules = .error e) :
     e = .valueError ∧
     ∃ rule ∈ rules,
       (∃ t ct, rule = .col t ct none ∧ t ∉ titles) ∨
-      (∃ kind ct, rule = .range kind ct false ∧ rangeNames (knownTitles rules) titles = []) := by
+      (∃ kind ct, rule = .range kind ct false ∧ rangeNames known titles = []) := by
   unfold bindTitles at h
-  generalize knownTitles rules = known at h ⊢
   induction rules with
   | nil => simp [mapE] at h
   | cons r rs ih =>
@@ -136,7 +137,8 @@ theorem bind_error {V : Type} (titles : List Key) (rules : List (Rule V)) (e : E
       · cases h
 
 /-- Range detection: the columns of a ranged attribute are the first maximal run of titled
-columns whose title no rule names (blank titles and named columns end the run). -/
+columns whose title no rule names (blank titles and named columns end the run); `known` = the
+titles named by the rules of *any* rule set of the reader (`Cfg.known`, `reader_known`). -/
 theorem range_columns (known titles : List Key) :
     ∃ pre post, titles = pre ++ rangeNames known titles ++ post ∧
       (∀ t ∈ pre, isRangeCol known t = false) ∧
@@ -149,7 +151,8 @@ exception `err` if one ended it): either nothing was yielded because the sheet h
 the titles cannot be bound; or the sheet is blank rows, the title row, then `data ++ tail` where no
 row of `data` fires the end rule, there are exactly as many results as rows in `data`, the `i`-th
 result is `construct` of the `i`-th row of `data` (with the ladder substitution `curRows`; for a
-plain table that is the row itself), and `data` is everything up to the first row the end rule
+plain table that is the row itself; `callIdxs`: with the number of earlier `__init__` runs, i.e. the
+number of the call of the default factories), and `data` is everything up to the first row the end rule
 fires on (or the end of the sheet) when no exception ended the iteration, resp. up to the row on
 which the end rule, the ladder substitution or `construct` raised that exception. -/
 theorem one_per_row {V : Type} (cv : Conv V) (cfg : Cfg V) (s : Sheet)
@@ -157,7 +160,7 @@ theorem one_per_row {V : Type} (cv : Conv V) (cfg : Cfg V) (s : Sheet)
     (objs = [] ∧ ((∀ r ∈ s, rowEmpty r = true) ∧ err = none ∨ err = some .valueError)) ∨
     ∃ pre title data tail slots curs,
       s = pre ++ title :: (data ++ tail) ∧ (∀ r ∈ pre, rowEmpty r = true) ∧ rowEmpty title = false ∧
-      bindTitles (title.map fun c => titleOf c.val) cfg.rules = .ok slots ∧
+      bindTitles (title.map fun c => titleOf c.val) cfg.known cfg.rules = .ok slots ∧
       (∀ r ∈ data, endFires cfg.stop r = .ok false) ∧
       (err = none → tail = [] ∨ ∃ t rest, tail = t :: rest ∧ endFires cfg.stop t = .ok true) ∧
       (∀ e, err = some e → ∃ t rest, tail = t :: rest ∧
@@ -165,18 +168,19 @@ theorem one_per_row {V : Type} (cv : Conv V) (cfg : Cfg V) (s : Sheet)
          (endFires cfg.stop t = .ok false ∧
           (curRow (ladderPos cfg (title.map fun c => titleOf c.val)) (lastPrev none curs) t = .error e ∨
            ∃ cur, curRow (ladderPos cfg (title.map fun c => titleOf c.val)) (lastPrev none curs) t = .ok cur ∧
-             construct cv cfg.numId cfg.rules slots cur = .error e)))) ∧
+             construct cv cfg.numId cfg.rules slots (kAfter cfg.numId slots 0 curs) cur = .error e)))) ∧
       objs.length = data.length ∧
       curRows (ladderPos cfg (title.map fun c => titleOf c.val)) none data = .ok curs ∧
       (cfg.ladder = false → curs = data) ∧
-      ∀ (i : Nat) cur o, curs[i]? = some cur → objs[i]? = some o →
-        construct cv cfg.numId cfg.rules slots cur = .ok o := by
+      ∀ (i : Nat) cur kk o, curs[i]? = some cur →
+        (callIdxs cfg.numId slots 0 curs)[i]? = some kk → objs[i]? = some o →
+        construct cv cfg.numId cfg.rules slots kk cur = .ok o := by
   rcases iterTable_spec cv cfg s objs err h with ⟨h1, h2, h3⟩ | ⟨pre, title, rest, h1, h2, h3, h4⟩
   · exact Or.inl ⟨h2, Or.inl ⟨h1, h3⟩⟩
   · rcases h4 with ⟨e, he, ho, hee⟩ | ⟨slots, hs, hd⟩
     · refine Or.inl ⟨ho, Or.inr ?_⟩
-      rw [hee, (bind_error _ _ e he).1]
-    · obtain ⟨data, tail, curs, g1, g2, g3, g4, g5, g6, g7⟩ := dataRows_spec cv cfg slots _ rest none objs err hd
+      rw [hee, (bind_error _ _ _ e he).1]
+    · obtain ⟨data, tail, curs, g1, g2, g3, g4, g5, g6, g7⟩ := dataRows_spec cv cfg slots _ rest 0 none objs err hd
       have hcl := (curRows_step _ data none curs g3).1
       refine Or.inr ⟨pre, title, data, tail, slots, curs, by rw [h1, g1], h2, h3, hs, g2, g6, g7,
         by omega, g3, ?_, g5⟩
@@ -191,32 +195,67 @@ the titles of the title row and the cells that hold the values for data row `i` 
 particular an origin that is a coordinate is the coordinate of a cell of the sheet in the column
 titled as the rule says, in row `i` after the title row (plain table) or the nearest row above that
 holds the value (ladder), and the attribute is the conversion of exactly that cell; an attribute
-without cell has its declared default. -/
+without cell has its declared default: the result of call number `o.serial` of the declared factory
+(`fresh_defaults`: a different call for every object). -/
 theorem value_at_origin {V : Type} (cv : Conv V) (cfg : Cfg V) (s : Sheet)
     (objs : List (Option (Obj V))) (err : Option Err) (h : iterTable cv cfg s = ⟨objs, err⟩)
     (i : Nat) (o : Obj V) (ho : objs[i]? = some (some o)) :
     ∃ pre title rest, s = pre ++ title :: rest ∧ (∀ r ∈ pre, rowEmpty r = true) ∧
-      rowEmpty title = false ∧ o.attrs.length = cfg.rules.length ∧
+      rowEmpty title = false ∧ o.attrs.length = cfg.rules.length ∧ o.serial ≤ i ∧
       ∀ (k : Nat) (a : AVal V × Origin), o.attrs[k]? = some a →
         ∃ rule, cfg.rules[k]? = some rule ∧
-          AttrOk cv (title.map fun c => titleOf c.val) (knownTitles cfg.rules)
-            (Holder (ladderPos cfg (title.map fun c => titleOf c.val)) rest i) rule a := by
+          AttrOk cv (title.map fun c => titleOf c.val) cfg.known
+            (Holder (ladderPos cfg (title.map fun c => titleOf c.val)) rest i) o.serial rule a := by
   rcases one_per_row cv cfg s objs err h with ⟨h1, _⟩ | ⟨pre, title, data, tail, slots, curs, h1, h2, h3, h4, h5, _, _, h8, h9, _, h11⟩
   · rw [h1] at ho; simp at ho
   · have hi : i < data.length := by have := getElem?_lt_of_some _ _ _ ho; omega
     have hcl := (curRows_step _ data none curs h9).1
     have hic : i < curs.length := by omega
-    have hcon := h11 i curs[i] (some o) (by simp [hic]) ho
-    obtain ⟨hslen, hsall⟩ := bindTitles_spec _ _ _ h4
-    obtain ⟨hal, hattr⟩ := construct_attr cv cfg.numId cfg.rules slots curs[i] o hcon hslen
-    refine ⟨pre, title, data ++ tail, h1, h2, h3, hal, ?_⟩
+    have hkl := callIdxs_length cfg.numId slots curs 0
+    have hik : i < (callIdxs cfg.numId slots 0 curs).length := by omega
+    have hkk : (callIdxs cfg.numId slots 0 curs)[i]? = some (callIdxs cfg.numId slots 0 curs)[i] := by
+      simp [hik]
+    have hcon := h11 i curs[i] _ (some o) (by simp [hic]) hkk ho
+    obtain ⟨hslen, hsall⟩ := bindTitles_spec _ _ _ _ h4
+    obtain ⟨hal, hser, hattr⟩ := construct_attr cv cfg.numId cfg.rules slots _ curs[i] o hcon hslen
+    have hbound := (callIdxs_bounds cfg.numId slots curs 0 i _ hkk).2
+    refine ⟨pre, title, data ++ tail, h1, h2, h3, hal, by omega, ?_⟩
     intro k a ha
     obtain ⟨r, sl, src, hr, hsl, hsrc, hinit⟩ := hattr k a ha
     refine ⟨r, hr, ?_⟩
-    have hok := attr_ok cv _ (knownTitles cfg.rules) curs[i] r sl src a (hsall k r sl hr hsl) hsrc hinit
-    refine AttrOk.mono cv _ _ _ _ ?_ r a hok
+    rw [hser]
+    have hok := attr_ok cv _ cfg.known curs[i] r sl src a (hsall k r sl hr hsl) hsrc _ hinit
+    refine AttrOk.mono cv _ _ _ _ ?_ _ r a hok
     intro j c hjc
     exact Holder.append _ data tail i j c hi (curRows_holder _ data curs h9 i curs[i] j c (by simp [hic]) hjc)
+
+/-- Every object gets its own call of the declared default factories: the objects of a table are
+made by different runs of `__init__` (`serial`), later objects by later runs — so a default that is
+`d serial` (`value_at_origin`) is a fresh result of the factory for each object (a counter
+advances from object to object, `list` gives every object its own list), never a value shared
+with, or computed before, another object. -/
+theorem fresh_defaults {V : Type} (cv : Conv V) (cfg : Cfg V) (s : Sheet)
+    (objs : List (Option (Obj V))) (err : Option Err) (h : iterTable cv cfg s = ⟨objs, err⟩)
+    (i i' : Nat) (o o' : Obj V) (hii : i < i') (ho : objs[i]? = some (some o))
+    (ho' : objs[i']? = some (some o')) : o.serial < o'.serial := by
+  rcases one_per_row cv cfg s objs err h with ⟨h1, _⟩ | ⟨pre, title, data, tail, slots, curs, _, _, _, h4, _, _, _, h8, h9, _, h11⟩
+  · rw [h1] at ho; simp at ho
+  · have hi' : i' < data.length := by have := getElem?_lt_of_some _ _ _ ho'; omega
+    have hcl := (curRows_step _ data none curs h9).1
+    have hkl := callIdxs_length cfg.numId slots curs 0
+    have hic : i < curs.length := by omega
+    have hic' : i' < curs.length := by omega
+    have hkk : (callIdxs cfg.numId slots 0 curs)[i]? = some (callIdxs cfg.numId slots 0 curs)[i] := by
+      simp [show i < (callIdxs cfg.numId slots 0 curs).length by omega]
+    have hkk' : (callIdxs cfg.numId slots 0 curs)[i']? = some (callIdxs cfg.numId slots 0 curs)[i'] := by
+      simp [show i' < (callIdxs cfg.numId slots 0 curs).length by omega]
+    have hcon := h11 i curs[i] _ (some o) (by simp [hic]) hkk ho
+    have hcon' := h11 i' curs[i'] _ (some o') (by simp [hic']) hkk' ho'
+    obtain ⟨_, _, _, hser⟩ := construct_some cv _ _ _ _ _ o hcon
+    obtain ⟨_, _, _, hser'⟩ := construct_some cv _ _ _ _ _ o' hcon'
+    rw [hser, hser']
+    exact callIdxs_lt cfg.numId slots curs 0 i i' _ _ curs[i] hii hkk hkk' (by simp [hic])
+      (construct_some_ranInit cv _ _ _ _ _ o hcon)
 
 /-- `None` results. A data row yields `None` instead of an object only if the class has key
 attributes and either every key attribute is a plain column whose cell for that row (`Holder`) is
@@ -234,18 +273,22 @@ theorem none_result {V : Type} (cv : Conv V) (cfg : Cfg V) (s : Sheet)
             Holder (ladderPos cfg (title.map fun c => titleOf c.val)) rest i j cell ∧
             cell.val = .blank) ∨
        (cfg.numId ≤ cfg.rules.length ∧ ∀ k, k < cfg.numId →
-          ∃ rule a, cfg.rules[k]? = some rule ∧
-            AttrOk cv (title.map fun c => titleOf c.val) (knownTitles cfg.rules)
-              (Holder (ladderPos cfg (title.map fun c => titleOf c.val)) rest i) rule a ∧
+          ∃ rule a kk, cfg.rules[k]? = some rule ∧
+            AttrOk cv (title.map fun c => titleOf c.val) cfg.known
+              (Holder (ladderPos cfg (title.map fun c => titleOf c.val)) rest i) kk rule a ∧
             a.1.isNone cv = true)) := by
   rcases one_per_row cv cfg s objs err h with ⟨h1, _⟩ | ⟨pre, title, data, tail, slots, curs, h1, h2, h3, h4, h5, _, _, h8, h9, _, h11⟩
   · rw [h1] at ho; simp at ho
   · have hi : i < data.length := by have := getElem?_lt_of_some _ _ _ ho; omega
     have hcl := (curRows_step _ data none curs h9).1
     have hic : i < curs.length := by omega
-    have hcon := h11 i curs[i] none (by simp [hic]) ho
-    obtain ⟨hslen, hsall⟩ := bindTitles_spec _ _ _ h4
-    obtain ⟨hn, srcs, hsrcs, hcase⟩ := construct_none cv cfg.numId cfg.rules slots curs[i] hcon
+    have hkl := callIdxs_length cfg.numId slots curs 0
+    have hik : i < (callIdxs cfg.numId slots 0 curs).length := by omega
+    have hkk : (callIdxs cfg.numId slots 0 curs)[i]? = some (callIdxs cfg.numId slots 0 curs)[i] := by
+      simp [hik]
+    have hcon := h11 i curs[i] _ none (by simp [hic]) hkk ho
+    obtain ⟨hslen, hsall⟩ := bindTitles_spec _ _ _ _ h4
+    obtain ⟨hn, srcs, hsrcs, hcase⟩ := construct_none cv cfg.numId cfg.rules slots _ curs[i] hcon
     have hsl := mapE_length _ _ _ hsrcs
     have hold : ∀ (j : Nat) (c : Cell), curs[i][j]? = some c →
         Holder (ladderPos cfg (title.map fun c => titleOf c.val)) (data ++ tail) i j c :=
@@ -263,7 +306,7 @@ theorem none_result {V : Type} (cv : Conv V) (cfg : Cfg V) (s : Sheet)
       rw [hc] at hso
       obtain ⟨j, hj, hcj⟩ := srcOf_cell _ _ _ hso
       subst hj
-      have hb' := (bind_sound _ _ _ h4).2 k cfg.rules[k] (.at j) (by simp [hkr]) hsl'
+      have hb' := (bind_sound _ _ _ _ h4).2 k cfg.rules[k] (.at j) (by simp [hkr]) hsl'
       cases hr : cfg.rules[k] with
       | ext d => rw [hr] at hb'; cases hb'
       | range kind ct opt => rw [hr] at hb'; obtain ⟨ids, hids, _⟩ := hb'; cases hids
@@ -276,14 +319,14 @@ theorem none_result {V : Type} (cv : Conv V) (cfg : Cfg V) (s : Sheet)
     · right
       refine ⟨hle, ?_⟩
       intro k hk
-      obtain ⟨hal, hget⟩ := zipInit_spec cv cfg.rules srcs attrs hz
+      obtain ⟨hal, hget⟩ := zipInit_spec cv _ cfg.rules srcs attrs hz
       have hka : k < attrs.length := by omega
       have hmem : attrs[k] ∈ attrs.take cfg.numId :=
         mem_take_of_lt attrs cfg.numId k _ hk (by simp [hka])
       obtain ⟨r, s', hr, hs', hinit⟩ := hget k attrs[k] (by simp [hka])
       obtain ⟨sl, hsl', hso⟩ := mapE_get _ _ _ hsrcs k s' hs'
-      have hok := attr_ok cv _ (knownTitles cfg.rules) curs[i] r sl s' attrs[k] (hsall k r sl hr hsl') hso hinit
-      exact ⟨r, attrs[k], hr, AttrOk.mono cv _ _ _ _ hold r _ hok, hnone _ hmem⟩
+      have hok := attr_ok cv _ cfg.known curs[i] r sl s' attrs[k] (hsall k r sl hr hsl') hso _ hinit
+      exact ⟨r, attrs[k], _, hr, AttrOk.mono cv _ _ _ _ hold _ r _ hok, hnone _ hmem⟩
 
 /-- The wording of the property for a worksheet whose coordinates are pairwise distinct: an
 attribute whose reported origin (`get_attr_origin(attr)`, resp. `get_attr_origin(attr, key)` of a
@@ -302,7 +345,7 @@ theorem origin_cell_lookup {V : Type} (cv : Conv V) (cfg : Cfg V) (s : Sheet)
         match kind with
         | .dict => ∃ d, val = .dict d ∧ dictGet d key = some v
         | .set => ∃ ks, val = .set ks ∧ (key ∈ ks ↔ cv.truthy v = true)) := by
-  obtain ⟨pre, title, rest, h1, _, _, _, hall⟩ := value_at_origin cv cfg s objs err h i o ho
+  obtain ⟨pre, title, rest, h1, _, _, _, _, hall⟩ := value_at_origin cv cfg s objs err h i o ho
   obtain ⟨rule, hr, hok⟩ := hall k (val, org) ha
   have hmem : ∀ (j : Nat) (cell : Cell),
       Holder (ladderPos cfg (title.map fun c => titleOf c.val)) rest i j cell → cell ∈ s.flatten := by
@@ -377,9 +420,9 @@ example : rangeDescr (sortCoords ((List.range 27).map fun k => mkCoord 1 (k + 1)
 exception if any — and the same reported origins, i.e. the coordinates of the cells of `s` that
 hold the values (a filled cell *is* the cell it was copied from, coordinate included). -/
 theorem ladder_eq_filled {V : Type} (cv : Conv V) (stop : Stop) (numId : Nat) (rules : List (Rule V))
-    (s s' : Sheet) (hf : fillSheet stop s = .ok s') :
-    iterTable cv ⟨stop, true, numId, rules⟩ s = iterTable cv ⟨stop, false, numId, rules⟩ s' :=
-  iterTable_fill cv stop numId rules s s' hf
+    (extra : List Key) (s s' : Sheet) (hf : fillSheet stop s = .ok s') :
+    iterTable cv ⟨stop, true, numId, rules, extra⟩ s = iterTable cv ⟨stop, false, numId, rules, extra⟩ s' :=
+  iterTable_fill cv stop numId rules extra s s' hf
 
 /-- What the filled sheet is. The blank rows before the title row, the title row, and everything
 from the first row on which the end rule fires (evaluated on the sheet as given) are unchanged;
@@ -469,7 +512,7 @@ that exception. `TableReader.read_list` is `read_table` with the default end rul
 theorem read_table_sound {V : Type} (cv : Conv V) (cfg : Cfg V) (s : Sheet) :
     (∀ objs, readTable cv cfg s = .ok objs ↔ iterTable cv cfg s = ⟨objs, none⟩) ∧
     (∀ e, readTable cv cfg s = .error e ↔ ∃ objs, iterTable cv cfg s = ⟨objs, some e⟩) ∧
-    (∀ numId rules, readList cv numId rules s = readTable cv ⟨.blankAll, false, numId, rules⟩ s) := by
+    (∀ numId rules, readList cv numId rules s = readTable cv ⟨.blankAll, false, numId, rules, []⟩ s) := by
   refine ⟨?_, ?_, fun _ _ => rfl⟩
   · intro objs
     unfold readTable readAll
@@ -485,6 +528,35 @@ theorem read_table_sound {V : Type} (cv : Conv V) (cfg : Cfg V) (s : Sheet) :
       cases e' with
       | none => simp
       | some e' => simp
+
+/-- Several objects per row. What `XlsTableReader(rules_1, …, rules_n).iter_table` yields for its
+`j`-th rule set is what `iter_table` yields for that rule set alone, configured with the same end
+rule and ladder flag and with the reader's known titles (`reader_known`): the `j`-th result of
+every yielded row is the result of that row there, and if no exception ended the reader's iteration
+there are exactly as many. So every theorem above holds for every object a multi-object reader
+yields. -/
+theorem reader_rows {V : Type} (cv : Conv V) (r : Reader V) (j : Nat) (c : Cfg V)
+    (hc : r.cfgs[j]? = some c) (s : Sheet) :
+    (∀ (i : Nat) res, (iterTableM cv r s).rows[i]? = some res →
+      ∃ o, res[j]? = some o ∧ (iterTable cv c s).objs[i]? = some o) ∧
+    ((iterTableM cv r s).err = none →
+      (iterTable cv c s).err = none ∧
+      (iterTable cv c s).objs.length = (iterTableM cv r s).rows.length) :=
+  iterTableM_proj cv r j c hc s
+
+/-- In a reader every rule set sees, as known titles, the titles named by the rules of *all* rule
+sets of the reader: for a ranged attribute of one object a column that belongs to another object is
+a named column (it is not part of the range and it ends the run, `range_columns`). -/
+theorem reader_known {V : Type} (r : Reader V) (c : Cfg V) (hc : c ∈ r.cfgs) :
+    c.stop = r.stop ∧ c.ladder = r.ladder ∧ (∃ st ∈ r.sets, c.numId = st.1 ∧ c.rules = st.2) ∧
+    ∀ st ∈ r.sets, ∀ t ∈ knownTitles st.2, t ∈ c.known := by
+  unfold Reader.cfgs at hc
+  obtain ⟨st0, hst0, hceq⟩ := List.mem_map.mp hc
+  subst hceq
+  refine ⟨rfl, rfl, ⟨st0, hst0, rfl, rfl⟩, ?_⟩
+  intro st hst t ht
+  unfold Cfg.known Reader.cfgOf
+  exact List.mem_append_right _ (mem_allKnown r.sets st t hst ht)
 
 /-- No spurious exceptions. On a well-formed request — a rectangular sheet with at least one column,
 every key attribute read from a column that exists (the other attributes may be external, optional,
@@ -596,38 +668,39 @@ private def ladderSheet : Sheet := mkSheet
    [.text "trailing".toList, .blank, .blank]]
 
 private def ladderRules : List (Rule StdV) :=
-  [.col "Id".toList 1 none, .col "Year".toList 1 none, .col "Mon".toList 0 none, .ext (.int 42)]
+  [.col "Id".toList 1 none, .col "Year".toList 1 none, .col "Mon".toList 0 none,
+   .ext (fun k => .int (42 + k))]
 
 /-- three objects; the third one takes year and month from rows 2 and 3 (origins A2, B3) -/
-example : (iterTable stdConv ⟨.blankAll, true, 1, ladderRules⟩ ladderSheet).objs.map
+example : (iterTable stdConv ⟨.blankAll, true, 1, ladderRules, []⟩ ladderSheet).objs.map
     (fun o => o.map fun o => o.attrs.map fun a => (attrOrigin a.2 none)) =
     [some [.ok "C2".toList, .ok "A2".toList, .ok "B2".toList, .ok Gen.C18.naOrigin],
      some [.ok "C3".toList, .ok "A2".toList, .ok "B3".toList, .ok Gen.C18.naOrigin],
      some [.ok "C4".toList, .ok "A2".toList, .ok "B3".toList, .ok Gen.C18.naOrigin]] := by
   decide +kernel
 
-example : (iterTable stdConv ⟨.blankAll, true, 1, ladderRules⟩ ladderSheet).err = none := by
+example : (iterTable stdConv ⟨.blankAll, true, 1, ladderRules, []⟩ ladderSheet).err = none := by
   decide +kernel
 
 /-- with the rule 'blank first' the ladder ends at the first "same as above" row: one object -/
-example : (iterTable stdConv ⟨.blankFirst, true, 1, ladderRules⟩ ladderSheet).objs.length = 1 := by
+example : (iterTable stdConv ⟨.blankFirst, true, 1, ladderRules, []⟩ ladderSheet).objs.length = 1 := by
   decide +kernel
 
 /-- the filled sheet exists and differs from the sheet (hypothesis of `ladder_eq_filled`) -/
 example : ∃ s', fillSheet .blankAll ladderSheet = .ok s' ∧ s' ≠ ladderSheet ∧
-    iterTable stdConv ⟨.blankAll, false, 1, ladderRules⟩ s' =
-      iterTable stdConv ⟨.blankAll, true, 1, ladderRules⟩ ladderSheet := by
+    iterTable stdConv ⟨.blankAll, false, 1, ladderRules, []⟩ s' =
+      iterTable stdConv ⟨.blankAll, true, 1, ladderRules, []⟩ ladderSheet := by
   obtain ⟨s', hs'⟩ := fill_total .blankAll 3 ladderSheet (by decide +kernel)
-  refine ⟨s', hs', ?_, (ladder_eq_filled stdConv .blankAll 1 ladderRules ladderSheet s' hs').symm⟩
+  refine ⟨s', hs', ?_, (ladder_eq_filled stdConv .blankAll 1 ladderRules [] ladderSheet s' hs').symm⟩
   intro heq
   rw [heq] at hs'
   revert hs'
   decide +kernel
 
 /-- the hypotheses of `std_only_value_errors` hold for this request -/
-example : (iterTable stdConv ⟨.blankAll, true, 1, ladderRules⟩ ladderSheet).err = none ∨
-    (iterTable stdConv ⟨.blankAll, true, 1, ladderRules⟩ ladderSheet).err = some .valueError := by
-  refine std_only_value_errors ⟨.blankAll, true, 1, ladderRules⟩ 3 (by decide) ladderSheet
+example : (iterTable stdConv ⟨.blankAll, true, 1, ladderRules, []⟩ ladderSheet).err = none ∨
+    (iterTable stdConv ⟨.blankAll, true, 1, ladderRules, []⟩ ladderSheet).err = some .valueError := by
+  refine std_only_value_errors ⟨.blankAll, true, 1, ladderRules, []⟩ 3 (by decide) ladderSheet
     (by decide +kernel) ?_ (by decide) ?_
   · intro r hr ct hc
     simp only [ladderRules, List.mem_cons, List.not_mem_nil, or_false] at hr
@@ -646,7 +719,7 @@ private def rangeSheet : Sheet := mkSheet
 origin `B3:C3` -/
 example : (iterTable stdConv ⟨.blankAll, false, 0,
       [.col "id".toList 1 none, .range .set 1 false, .col "name".toList 0 none,
-       .col "status".toList 1 (some (.int 7))]⟩ rangeSheet).objs.map
+       .col "status".toList 1 (some fun _ => .int 7)], []⟩ rangeSheet).objs.map
     (fun o => o.map fun o => o.attrs.map fun a => (a.1, attrOrigin a.2 none)) =
     [some [(.plain (.int 0), .ok "A3".toList), (.set ["math".toList], .ok "B3:C3".toList),
            (.plain (.str "Arnold".toList), .ok "D3".toList),
@@ -656,15 +729,33 @@ example : (iterTable stdConv ⟨.blankAll, false, 0,
 /-- the first attribute need not come from a column: external, ranged and missing optional first
 attributes (the rule sets of the repaired anchor-cell defect) yield one object per data row -/
 example : (iterTable stdConv ⟨.blankAll, false, 0,
-      [.ext (.str "file".toList), .range .set 1 true, .col "gone".toList 1 (some .none),
-       .col "id".toList 1 none, .col "name".toList 0 none]⟩ rangeSheet).objs.map
+      [.ext (fun _ => .str "file".toList), .range .set 1 true, .col "gone".toList 1 (some fun _ => .none),
+       .col "id".toList 1 none, .col "name".toList 0 none], []⟩ rangeSheet).objs.map
       (fun o => o.map fun o => o.attrs.map fun a => a.1) =
     [some [.plain (.str "file".toList), .set ["math".toList], .plain .none, .plain (.int 0),
            .plain (.str "Arnold".toList)]] := by
   decide +kernel
 
+/-- two objects per row: the ranged attribute of the first object does not swallow the column
+`name` of the second one (its run is `math, cs`); the counter default of the second object starts at 10 -/
+example : (iterTableM stdConv ⟨.blankAll, false,
+      [(1, [.col "id".toList 1 none, .range .set 1 false]),
+       (0, [.col "name".toList 0 none, .ext (fun k => .int (10 + k))])]⟩ rangeSheet).rows.map
+      (fun res => res.map fun o => o.map fun o => o.attrs.map fun a => a.1) =
+    [[some [.plain (.int 0), .set ["math".toList]],
+      some [.plain (.str "Arnold".toList), .plain (.int 10)]]] := by
+  decide +kernel
+
+/-- a counter as default factory: every object gets the next number -/
+example : (iterTable stdConv ⟨.blankAll, true, 1, ladderRules, []⟩ ladderSheet).objs.map
+      (fun o => o.map fun o => (o.serial, (o.attrs.map fun a => a.1)[3]?)) =
+    [some (0, some (.plain (.int 42))), some (1, some (.plain (.int 43))),
+     some (2, some (.plain (.int 44)))] := by
+  decide +kernel
+
 /-- a missing column without default is rejected with `ValueError` (hypothesis of `bind_error`) -/
-example : bindTitles ["id".toList] [Rule.col "id".toList 1 (none : Option StdV), .col "x".toList 1 none]
+example : bindTitles ["id".toList] ["id".toList, "x".toList]
+    [Rule.col "id".toList 1 (none : Option (Nat → StdV)), .col "x".toList 1 none]
     = .error .valueError := by decide +kernel
 
 end examples
